@@ -63,6 +63,8 @@ func filterFunc(name string, rec *recorder) func(interface{}) (interface{}, erro
 		"wrap": func(v interface{}) (interface{}, error) { return []interface{}{v}, nil },
 		"tn":   func(v interface{}) (interface{}, error) { return goTypeName(v), nil },
 		"fail": func(v interface{}) (interface{}, error) { return nil, errLib },
+		// a function whose result is a Go number that is not a float64 (kind int3): it replaces the value as it is
+		"k3": func(v interface{}) (interface{}, error) { return int(3), nil },
 		// a user function that itself uses the library and hands the error it got back unchanged
 		"relay": func(v interface{}) (interface{}, error) {
 			inner := jsonpath.Config{}
@@ -110,6 +112,9 @@ func aggFunc(name string, rec *recorder) func([]interface{}) (interface{}, error
 		// when the result is read again later
 		"arr":   func(l []interface{}) (interface{}, error) { return l, nil },
 		"afail": func(l []interface{}) (interface{}, error) { return nil, errLib },
+		"c5":    func(l []interface{}) (interface{}, error) { return int64(5), nil },
+		// a user function that panics: the caller (the runner) recovers; the library must be as good as new afterwards
+		"apanic": func(l []interface{}) (interface{}, error) { panic("user aggregate function panicked") },
 		"amax": func(l []interface{}) (interface{}, error) {
 			found := false
 			best := 0.0
@@ -437,7 +442,8 @@ func locations(c *caseT, docIdx int, n int, rec *recorder) string {
 				}
 			}
 			// Set stores whatever value it is given at that location — nil, a scalar, a container — and nothing else changes
-			for _, v := range []interface{}{nil, true, map[string]interface{}{"s": 1.0}, map[string]interface{}{"t": 2.0}, []interface{}{"s"}, []interface{}{"t", "u"}, "", 2.5, 7, json.Number("2.5"), 2.5} {
+			for _, v := range []interface{}{nil, true, map[string]interface{}{"s": 1.0}, map[string]interface{}{"t": 2.0}, []interface{}{"s"}, []interface{}{"t", "u"}, "", 2.5, 7, json.Number("2.5"), 2.5,
+				[]interface{}(nil), map[string]interface{}(nil), []interface{}{}, map[string]interface{}{}, 2.5} {
 				if found[0] == "" {
 					break
 				}
@@ -445,6 +451,11 @@ func locations(c *caseT, docIdx int, n int, rec *recorder) string {
 				want := buildDoc(c.Docs[docIdx])
 				if !setAt(want, found[0], v) || render(doc) != render(want) {
 					loc += "!setValueKind"
+					break
+				}
+				// the location holds the very value given (a typed nil container stays a typed nil container)
+				if g := acc.Get(); !reflect.DeepEqual(g, v) {
+					loc += "!setValueNotStored"
 					break
 				}
 			}
